@@ -57,6 +57,40 @@ def readArchiveTail (img : Bytes) : Except String Archive :=
           | .error e => .error e
           | .ok top => .ok { top, dataArea := (img.drop 32).take ofs }
 
+/-- Opening an archive whose next header may be an EncodedHeader record.  `decode` is the codec
+    of the header folder (a parameter: the format leaves it to the coders).  Strict: one
+    folder, one packed stream lying at the very end of the data area, the decoded header exactly
+    as long as the folder's unpack size and matching the folder's CRC — which must be present —,
+    and a raw header inside.  Returns the header database and the data area of the members. -/
+def openArchive (decode : SFolder → Bytes → Option Bytes) (img : Bytes) : Except String (SHeader × Bytes) :=
+  match readArchive img with
+  | .error e => .error e
+  | .ok a =>
+    match a.top with
+    | .raw h => .ok (h, a.dataArea)
+    | .empty => .ok ({}, a.dataArea)
+    | .encoded s =>
+      match s.pack, s.folders with
+      | some p, [f] =>
+        match p.sizes with
+        | [sz] =>
+          if p.packpos + sz ≠ a.dataArea.length then .error "the packed header does not end the data area"
+          else
+            match decode f ((a.dataArea.drop p.packpos).take sz), folderOut f, f.crc with
+            | some raw, .ok u, some c =>
+              if raw.length ≠ u then .error "decoded header has the wrong length"
+              else if crc32 raw ≠ c then .error "decoded header fails its CRC"
+              else
+                match readTop raw with
+                | .ok (.raw h) => .ok (h, a.dataArea.take p.packpos)
+                | .ok _ => .error "nested encoded header"
+                | .error e => .error e
+            | none, _, _ => .error "the header stream does not decode"
+            | _, .error e, _ => .error e
+            | _, _, none => .error "encoded header without a CRC"
+        | _ => .error "encoded header: exactly one packed stream expected"
+      | _, _ => .error "encoded header: exactly one folder expected"
+
 /-- "packed sizes tile the data area exactly" -/
 def tilesExactly (s : SStreams) (area : Bytes) : Bool :=
   match s.pack with
